@@ -15,6 +15,7 @@ from .. import scen as S
 from .. import ianasuite
 from .. import refrecord
 from ..core import pmap, room
+from ..world import SEAMS
 from tlslite import errors as E
 from tlslite.constants import AlertDescription as AD
 
@@ -39,8 +40,38 @@ def raw_records(buf):
     return out
 
 
-def setup(v, sid, etm, seed):
+def setup(v, sid, etm, seed, early=False):
     sc = S.scen_for_suite(v, sid, etm)
+    if early:
+        # the client also offers TLS 1.3 with a PSK and announces early
+        # data (which this TLS <= 1.2 server will never see): whatever the
+        # server prepared for skipping early data must be gone once the
+        # older version is negotiated
+        from tlslite.messages import ClientHello
+        from tlslite.extensions import TLSExtension
+        from tlslite.constants import ExtensionType
+        cst = S.base_settings(minv=v, maxv=(3, 4))
+        cst.useEncryptThenMAC = etm
+        cst.pskConfigs = [(b"early-offer", b"\x44" * 32, "sha256")]
+        orig = ClientHello.create
+
+        def create(self, *a, **kw):
+            r = orig(self, *a, **kw)
+            if SEAMS.current == "C" and self.extensions is not None and \
+                    not self.getExtension(ExtensionType.early_data):
+                self.extensions.append(TLSExtension(
+                    extType=ExtensionType.early_data).create(bytearray(0)))
+            return r
+        ClientHello.create = create
+        try:
+            pair, out = S.connect(sc, seed=seed, csettings=cst)
+        finally:
+            ClientHello.create = orig
+        if not (out["C"].status == "ok" and out["S"].status == "ok"):
+            return None
+        if pair.c.session.cipherSuite != sid or tuple(pair.c.version) != v:
+            return None
+        return pair
     pair, out = S.connect(sc, seed=seed)
     if not (out["C"].status == "ok" and out["S"].status == "ok"):
         return None
@@ -165,12 +196,16 @@ def judge(obs, expected_prefix, fault_is_identity, all_plain,
 
 
 def case(item):
-    v, sid, etm, tier, seed = item
+    v, sid, etm, tier, seed = item[:5]
+    early = len(item) > 5 and item[5] == "early"
     info = S.ALL_INFOS[sid]
-    name = "%s/%s%s" % (S.VNAME[v], info.name, "" if etm else "/noetm")
+    name = "%s/%s%s%s" % (S.VNAME[v], info.name, "" if etm else "/noetm",
+                          "/early-data-hello" if early else "")
     rec = {"name": name, "n": 0, "fails": [], "sigs": set(), "known": 0,
            "by_class": {}, "pc": {}}
-    base0 = setup(v, sid, etm, seed)
+    base0 = setup(v, sid, etm, seed, early)
+    if base0 is None and early:
+        return rec      # suite not among the defaults of such a client
     if base0 is None:
         rec["fails"].append(({"fault": "setup"}, "handshake failed"))
         return rec
@@ -493,6 +528,12 @@ def run(res, tier, seed):
         # positions are part of each case already (short records)
         pass
     items = [(v, sid, etm, tier, seed) for (v, sid, etm) in triples]
+    # one triple per record-protection family of TLS 1.0-1.2 again, after a
+    # ClientHello that offered TLS 1.3 with early data
+    from .c01 import family_reps
+    items += [(v, sid, etm, tier, seed, "early")
+              for (v, sid, etm) in family_reps(triples).values()
+              if (3, 1) <= v <= (3, 3)]
     tot = 0
     classes = {}
     for rec in pmap(case, items, chunksize=1):
